@@ -1,6 +1,8 @@
 import Driver.Proto
 import PqModel.SearchMulti
 import PqModel.SearchNaN
+import PqModel.SearchPages
+import PqModel.SearchPagesF
 
 namespace Driver.Ops.C06
 open Driver
@@ -35,6 +37,39 @@ def showBound : PqModel.Search.Bound → String
   | none => "n"
   | some x => toString x
 
+/-- one value of a page: `n` = null, else the bit pattern as an unsigned decimal -/
+def parseOptNat? (s : String) : Option (Option Nat) :=
+  if s == "n" then some none else (s.toNat?).map some
+
+/-- pages separated by `|`, values by `,`; `-` = no page; a page always has at least one entry -/
+def parsePages? (s : String) : Option (List (List (Option Nat))) :=
+  if s == "-" then some [] else (s.splitOn "|").mapM (parseList? parseOptNat?)
+
+/-- `pages.find`: the index of the pages' values and `find` for every probe under both null orderings, all in the
+    column's own order -/
+def pagesFind (signed : Bool) (w : Nat) (pages : List (List (Option Nat))) (probes : List Nat) : String :=
+  let ps : List (List (Option (BitVec w))) := pages.map (fun p => p.map (fun o => o.map (BitVec.ofNat w)))
+  let ix := PqModel.Search.indexOfPages (PqModel.Search.intBounds signed w) (PqModel.Search.intKey signed w) ps
+  let order := PqModel.Search.writerOrder 0 ix
+  let finds := fun (nf : Bool) =>
+    probes.map (fun v => PqModel.Search.find nf (order == 1) ix (PqModel.Search.intKey signed w (BitVec.ofNat w v)))
+  s!"ok {showList toString (finds false)} {showList toString (finds true)} {order} {showList showBound ix.mins} {showList showBound ix.maxs}"
+
+def showFB : PqModel.Search.FB → String
+  | .null => "n"
+  | .nan => "nan"
+  | .val x => toString x
+
+/-- `pages.findf`: the same for FLOAT (`e m = 8 23`) / DOUBLE (`11 52`) bit patterns; probes are non-NaN -/
+def pagesFindF (e m : Nat) (pages : List (List (Option Nat))) (probes : List Nat) : String :=
+  let ps : List (List (Option (BitVec (1 + e + m)))) := pages.map (fun p => p.map (fun o => o.map (BitVec.ofNat _)))
+  let key := PqModel.Stats.fKey e m
+  let ix := PqModel.Search.indexOfPagesF (PqModel.Search.floatBounds e m) key (PqModel.Stats.fIsNaN e m) ps
+  let order := PqModel.Search.writerOrderF 0 ix
+  let finds := fun (nf : Bool) =>
+    probes.map (fun v => PqModel.Search.findF nf (order == 1) ix (key (BitVec.ofNat _ v)))
+  s!"ok {showList toString (finds false)} {showList toString (finds true)} {order} {showList showFB ix.mins} {showList showFB ix.maxs}"
+
 /-- `find <asc 0/1> <zero-rank> <mins> <maxs> <v>` (bounds: int or `n`) -> `ok <page> <boundary order>`
     (nulls-last compare, as `Search`); `find.nf <nullsFirst 0/1> <asc> <zero-rank> <mins> <maxs> <v>` gives the
     null ordering of the compare function handed to `Find`.
@@ -42,7 +77,13 @@ def showBound : PqModel.Search.Bound → String
     `find.f <nullsFirst> <asc> <zero-rank> <mins> <maxs> <v>`: the same over float bounds (int | `n` | `nan`).
     `multi.find <nullsFirst> <zero-rank> <chunks> <probes>` -> `ok <page per probe> <IsAscending> <IsDescending> <NumPages>
     <NullPage list> <MinValue list> <MaxValue list>` of the multiColumnIndex over the chunk indexes, every
-    access through the `mapPageIndex` mirror. -/
+    access through the `mapPageIndex` mirror.
+    `pages.find <i32|i64|u32|u64> <pages of values> <probes>` -> `ok <page per probe, nulls last>
+    <page per probe, nulls first> <boundary order> <mins> <maxs>`: the column index built from the VALUES of the pages (`indexOfPages`: bounds of the non-null
+    values in the column's signed / unsigned order, null pages, the indexer's boundary order) and `find` on it;
+    bounds are printed as keys (`n` = null page).
+    `pages.findf <f32|f64> <pages of bit patterns> <probes>`: the same for FLOAT / DOUBLE (`indexOfPagesF`: NaN values
+    skipped by the bounds, all-NaN page = `nan` bounds, no boundary order with a NaN bound; keys = sign-magnitude ranks). -/
 def handle (toks : List String) : Option String :=
   match toks with
   | ["find", asc, z, mins, maxs, v] => some <|
@@ -82,6 +123,24 @@ def handle (toks : List String) : Option String :=
       let finds := vs.map (fun v => PqModel.Search.findMultiGo (nf == "1") z cs v)
       s!"ok {showList toString finds} {b (PqModel.Search.multiIsAscending z cs)} {b (PqModel.Search.multiIsDescending z cs)} {PqModel.Search.total cs} {showList b (PqModel.Search.multiViewNulls cs)} {showList showBound view.mins} {showList showBound view.maxs}"
     | _, _, _ => "bad-op"
+  | ["pages.find", kind, pages, vs] => some <|
+    match parsePages? pages, parseList? parseNat? vs with
+    | some ps, some vs =>
+      match kind with
+      | "i32" => pagesFind true 32 ps vs
+      | "i64" => pagesFind true 64 ps vs
+      | "u32" => pagesFind false 32 ps vs
+      | "u64" => pagesFind false 64 ps vs
+      | _ => "bad-op"
+    | _, _ => "bad-op"
+  | ["pages.findf", kind, pages, vs] => some <|
+    match parsePages? pages, parseList? parseNat? vs with
+    | some ps, some vs =>
+      match kind with
+      | "f32" => pagesFindF 8 23 ps vs
+      | "f64" => pagesFindF 11 52 ps vs
+      | _ => "bad-op"
+    | _, _ => "bad-op"
   | _ => none
 
 end Driver.Ops.C06
